@@ -26,8 +26,8 @@ fn vf_setup_run_path_touches_only_its_slot() {
         let inside: Vec<_> = after_all.iter().filter(|(p, _)| p.starts_with(&format!("monorail-out/run/{}/", new_id)) && *p != format!("monorail-out/run/{}/", new_id)).collect();
         let after: Vec<_> = after_all.iter().filter(|(p, _)| !p.starts_with(&format!("monorail-out/run/{}/", new_id))).cloned().collect();
         let what = format!("setup_run_path(slot {}) with max_retained_runs={} and existing slots {:?}", new_id, max, existing);
-        if r.is_err() { bad += 1; println!("VF-FAIL {} :: failed: {:?} (C12)", what, r.err().map(|e| e.to_string())); continue; }
-        if !inside.is_empty() { bad += 1; println!("VF-FAIL {} :: the slot still holds {:?} of the older run (C12)", what, inside.iter().map(|x| &x.0).collect::<Vec<_>>()); }
+        if r.is_err() { bad += 1; println!("VF-FAIL {} :: failed: {:?} (C12) (C08)", what, r.err().map(|e| e.to_string())); continue; }
+        if !inside.is_empty() { bad += 1; println!("VF-FAIL {} :: the slot still holds {:?} of the older run (C12) (C08)", what, inside.iter().map(|x| &x.0).collect::<Vec<_>>()); }
         let gone: Vec<&String> = before.iter().filter(|x| !after.contains(x)).map(|x| &x.0).collect();
         let added: Vec<&String> = after.iter().filter(|x| !before.contains(x) && !x.0.ends_with('/')).map(|x| &x.0).collect();
         if !gone.is_empty() || !added.is_empty() { bad += 1; println!("VF-FAIL {} :: outside the slot, {:?} changed or disappeared (other runs' records, the pointer and the checkpoint must stay) (C13)", what, gone.iter().take(4).collect::<Vec<_>>()); }
